@@ -107,6 +107,15 @@ Theorem C13_dropped_subparser_errors_refuted :
     run_events false evs [] 0 = (Ret tt, [], 1).
 Proof. exact subparser_drop_counterexample. Qed.
 
+(* the two class-5 Bad sites (`if cond == nil { cond = &ast.BadExpr{} }` in parseIfHeader and
+   parseForPhraseCond): on every path of the header skeleton, cond == nil implies that an error
+   was reported before *)
+Theorem C13_header_cond_nil_implies_error : forall t0 t1 t2,
+  fst (header_skeleton t0 t1 t2) = true -> snd (header_skeleton t0 t1 t2) = true.
+Proof. exact header_cond_nil_implies_error. Qed.
+Example C13_example_header : exists t0 t1 t2, header_skeleton t0 t1 t2 = (true, true).
+Proof. exact header_cond_nil_possible. Qed.
+
 (* ---------------------------------------------------------------- advance *)
 (* advance_progress: among any advance_slack+1 (= 12) consecutive calls of advance with arbitrary
    sync sets and no token consumed in between, at least one consumes a token *)
@@ -190,6 +199,7 @@ Print Assumptions C13_exprex_unsorted_refuted.
 Print Assumptions C13_wrapper_err_nil.
 Print Assumptions C13_err_nil_no_bad.
 Print Assumptions C13_dropped_subparser_errors_refuted.
+Print Assumptions C13_header_cond_nil_implies_error.
 Print Assumptions C13_advance_progress.
 Print Assumptions C13_advance_slack_tight.
 Print Assumptions C13_sync_loop_terminates.
